@@ -121,8 +121,10 @@ def _imports():
     tmp = tempfile.mkdtemp(prefix="c09_", dir="/dev/shm" if os.path.isdir("/dev/shm") else None)
     _ENV.update(np=np, enginebase=enginebase, EngineBase=EngineBase, Path=Path, System=System, tis=tis,
                 ScriptedEngine=ScriptedEngine, ScriptedGen=ScriptedGen, tmp=tmp)
-    _ENV["engine"] = ScriptedEngine(tmp)
-    _ENV["oldfile"] = os.path.join(tmp, "old.traj")
+    os.mkdir(os.path.join(tmp, "exe"))
+    os.mkdir(os.path.join(tmp, "load"))
+    _ENV["engine"] = ScriptedEngine(os.path.join(tmp, "exe"))
+    _ENV["oldfile"] = os.path.join(tmp, "load", "old.traj")     # not in exe_dir: clean_up() empties that one
     with open(_ENV["oldfile"], "w") as f:
         f.write("old path frames\n")
     _install_audit()
@@ -245,6 +247,52 @@ def run_real(case):
                 f"{lst(ops)} | {lst(gen.log)}")
         info["status_attr"] = trial.status
         info["kicks"] = eng.kicks
+    return line, info
+
+
+def run_real_md(case):
+    """the same case through the real run_md (→ select_shoot → shoot); start_cond comes from ens_set"""
+    E = _imports()
+    tis, eng = E["tis"], E["engine"]
+    E["enginebase"].counter.count = -1
+    old = mk_old(case)
+    gen = E["ScriptedGen"](case["idx"], float(Fraction(case["xi"])))
+    eng.script([float(x) for x in case["back"]], [float(x) for x in case["forw"]], float(case["kick"]))
+    tis_set = {"maxlength": case["ML"], "lambda_minus_one": False}
+    if case["am"] is not None:
+        tis_set["allowmaxlength"] = bool(case["am"])
+    intf = [float(x) for x in case["intf"]]
+    ens = {"interfaces": tuple(intf), "tis_set": tis_set, "rgen": gen, "ens_name": "001", "mc_move": "sh",
+           "start_cond": sc_tuple(case["sc"])}
+    picked = {1: {"ens": ens, "traj": old, "eng_idx": {"scripted": 0}, "exe_dir": eng.exe_dir}}
+    md = {"picked": picked, "moves": [], "mc_moves": ["sh", "sh", "sh"], "trial_len": [], "trial_op": [],
+          "generated": [], "interfaces": intf, "cap": None}
+    saved = tis.ENGINES
+    tis.ENGINES = {"scripted": [eng]}
+    before = snapshot(old)
+    with open(E["oldfile"], "rb") as f:
+        bytes_before = f.read()
+    _AUDIT.update(on=True, events=[], watch=E["oldfile"])
+    info = {}
+    try:
+        tis.run_md(md)
+        live = picked[1]["traj"]
+        st = md["status"]
+        info.update(status=st, live=live, replaced=live is not old, old_same=snapshot(old) == before,
+                    ops=[to_int(s.order[0]) for s in live.phasepoints], weights=getattr(live, "weights", None))
+        line = f"ok {st} {1 if live is not old else 0} {md['trial_len'][0]} | {lst(info['ops'])}"
+    except BadDraw:
+        line = "err:baddraw"
+    except Exception as e:  # noqa: BLE001
+        line = err_kind(e)
+    finally:
+        _AUDIT["on"] = False
+        tis.ENGINES = saved
+    try:
+        with open(E["oldfile"], "rb") as f:
+            info["file_same"] = f.read() == bytes_before and not _AUDIT["events"]
+    except OSError:
+        info["file_same"] = False
     return line, info
 
 
@@ -373,8 +421,15 @@ def evaluate(ctx, case, line, info):
     if th is not None:
         want, lnew, ratio = th
         if want and not acc:
-            ctx.fail(SIG_LEN_EQ, f"trial reaching both interfaces with L_new={lnew}, ξ={float(Fraction(case['xi']))} ≤ "
-                     f"n_old/n_new={ratio} rejected with status {status}", rep)
+            # one root cause, one report: only the first instance goes to ctx.fail (the framework keeps 20
+            # failures in all); every instance is counted
+            if hasattr(ctx, "hit"):
+                ctx.hit("threshold-violated:rejected-though-xi<=ratio")
+            if not getattr(ctx, "_c09_len_eq_reported", False):
+                ctx._c09_len_eq_reported = True
+                ctx.fail(SIG_LEN_EQ, f"trial reaching both interfaces with L_new={lnew}, ξ={float(Fraction(case['xi']))} ≤ "
+                         f"n_old/n_new={ratio} rejected with status {status} (add_to_path reports failure when "
+                         f"length == maxlen even if that frame crossed)", rep)
             n += 1
         elif acc and not want:
             ctx.fail("C09:shoot:accepted-above-threshold", f"L_new={lnew}, ξ={float(Fraction(case['xi']))} > n_old/n_new={ratio} accepted", rep)
@@ -436,6 +491,8 @@ def gen_cases(ctx):
     quick = ctx.quick
     cases = []
     add = cases.append
+    # the documented witness of the length == maxlen finding first (L_old = 4, ξ = 0.49, L_new = 6)
+    add(base_case(old=[-1, 2, 2, -1], intf=[0, 1, 4], xi=str(Fraction(0.49)), kick=2, back=[2, -1], forw=[2, 2, 5]))
     # --- A. the drawn length limit: every (L, ⌊·⌋ boundary ξ, (nb, nf) around the limit, exit sides, start conds)
     nmax = 6 if quick else 8
     for L in range(3, 8):
@@ -677,6 +734,38 @@ def run(ctx):
                     ({"a": "a", "r": "r"}[agree[0]] not in ctx.extra["add_to_path_agrees_with"]):
                 ctx.disagree({"fn": "variants"}, f"add_to_path agrees with {ctx.extra['add_to_path_agrees_with']}",
                              f"shoot agrees with {agree}")
+        # ---- run_md: the live path is replaced only on ACC (sample of the cases, start_cond from ens_set)
+        step = 4 if ctx.quick else 2
+        md_cases = []
+        for k, c in enumerate(cases):
+            if k % step == 0 and real[k][0].startswith("ok") and real[k][1].get("ops") and c["sc"] in ("L", "R", "LR"):
+                c2 = dict(c)
+                c2["sce"] = c["sc"]
+                md_cases.append(c2)
+        md_real = [run_real_md(c) for c in md_cases]
+        if have_model:
+            md_mod = {v: ctx.driver(["runmd" + model_line(c, v)[5:] for c in md_cases]) for v in ("a", "r")}
+            vv = agree[0] if agree else "a"
+        for k, c in enumerate(md_cases):
+            line, info = md_real[k]
+            ctx.count(1, branch="run_md:" + (line.split()[1] if line.startswith("ok") else line))
+            if have_model and line != md_mod[vv][k]:
+                ctx.disagree({"fn": "run_md", "variant": vv, "case": c}, line, md_mod[vv][k])
+            rep = {"case": c, "via": "run_md", "code": line}
+            if not line.startswith("ok"):
+                continue
+            if info["status"] != "ACC":
+                if info["replaced"] or not info["old_same"] or info["ops"] != [to_int(float(x)) for x in c["old"]]:
+                    ctx.fail("C09:run_md:old-path-replaced-or-mutated-on-reject",
+                             f"status {info['status']}: live path replaced={info['replaced']} old unchanged={info['old_same']}", rep)
+                if not info["file_same"]:
+                    ctx.fail("C09:shoot:old-files-touched-on-reject", f"status {info['status']} (run_md)", rep)
+            else:
+                if not info["replaced"]:
+                    ctx.fail("C09:run_md:accepted-path-not-installed", "status ACC but the old path stays", rep)
+                w = info["weights"]
+                if set(c["sc"]) != {"L", "R"} and not (w is not None and len(w) == 3 and w[1] != 0):
+                    ctx.fail("C09:run_md:zero-weight-in-own-ensemble", f"weights {w}", rep)
         ctx.exhaustive = False
         ctx.assumptions += [
             "order values are small integers (exact as floats)",
@@ -705,6 +794,19 @@ def replay(ctx, obj):
             print(obj)
             return 1
         case = r["case"]
+        if r.get("via") == "run_md":
+            line, info = run_real_md(case)
+            print("case:", case)
+            print("run_md:", line)
+            if not line.startswith("ok"):
+                return 0
+            if info["status"] != "ACC":
+                bad = info["replaced"] or not info["old_same"] or not info["file_same"]
+            else:
+                w = info["weights"]
+                bad = (not info["replaced"]) or (set(case["sc"]) != {"L", "R"} and not (w is not None and len(w) == 3 and w[1] != 0))
+            print("FAILS" if bad else "holds")
+            return 1 if bad else 0
         line, info = run_real(case)
         print("case:", case)
         print("code:", line)
